@@ -14,6 +14,7 @@ import (
 	"testing"
 	"time"
 
+	"github.com/apmckinlay/gsuneido/compile"
 	"github.com/apmckinlay/gsuneido/core"
 	"github.com/apmckinlay/gsuneido/dbms/mux"
 	"pgregory.net/rapid"
@@ -93,6 +94,8 @@ func (o op) String() string {
 		s += fmt.Sprintf(" h%d %s k=%d %c %v", o.H, str, o.N, o.Dir, o.B)
 	case "output", "update":
 		s += fmt.Sprintf(" h%d %v", o.H, o.Row)
+	case "abandon":
+		s += fmt.Sprintf(" %s unpackable%d %c in-tran=%v h%d", o.S, o.N, o.Dir, o.B, o.H)
 	case "tran", "strategy", "check":
 		s += fmt.Sprintf(" %v h%d", o.B, o.H)
 	case "asof":
@@ -166,7 +169,7 @@ func genScript(t *rapid.T) []op {
 	sel := func(label string) int { return gen.Uniform(t, label, 8) }
 	for i := 0; i < n; i++ {
 		kinds := []string{"tran", "tran", "admin", "getone", "getone", "run", "exec", "misc", "cursor", "libput",
-			"wblock", "wblock", "mblock", "mblock", "mblock"}
+			"wblock", "wblock", "mblock", "mblock", "mblock", "abandon", "abandon"}
 		if trans > 0 {
 			kinds = append(kinds, "query", "query", "query", "commit", "commit", "abort", "getone", "asof")
 		}
@@ -179,6 +182,43 @@ func genScript(t *rapid.T) []op {
 		}
 		o := op{K: gen.Pick(t, "kind", kinds), H: sel("h"), H2: sel("h2")}
 		switch o.K {
+		case "abandon":
+			// A request that cannot be completed because an argument (or the
+			// result) cannot be packed: the client gives up after it has begun
+			// to encode it (Get/Query1/First/Last encode command, direction
+			// and transaction before the query object; Exec packs first), or
+			// the server gives up a reply it has begun. The caller catches the
+			// exception and goes on using the same session / transaction / query.
+			o.S = gen.Pick(t, "abandon what", []string{"getone", "getone", "getone", "exec", "run"})
+			o.N = gen.Uniform(t, "unpackable", 5)
+			o.Dir = gen.Pick(t, "dir", []byte{'1', '@'})
+			o.B = gen.Chance(t, "in transaction", 50)
+			ops = append(ops, o)
+			// ... followed by valid requests on the same session
+			for j := 1 + gen.Uniform(t, "followers", 2); j > 0; j-- {
+				fk := []string{"size", "run", "getone", "getone", "libraries", "transactions"}
+				if trans > 0 {
+					fk = append(fk, "getone-in-tran", "getone-in-tran", "query")
+				}
+				if qs > 0 {
+					fk = append(fk, "get", "get", "header")
+				}
+				fo := op{K: gen.Pick(t, "follower", fk), H: sel("h"), H2: sel("h2"), Dir: '+'}
+				switch fo.K {
+				case "run":
+					fo.S = gen.Pick(t, "code", codes40[:8])
+				case "getone":
+					fo.S, fo.N, fo.Dir = "t0", gen.Uniform(t, "k", 4), gen.Pick(t, "dir", []byte{'1', '@'})
+				case "getone-in-tran":
+					fo.K, fo.B = "getone", true
+					fo.S, fo.N, fo.Dir = "t0 sort k", -1, gen.Pick(t, "dir", []byte{'+', '-'})
+				case "query":
+					fo.S = gen.Pick(t, "q", queries40[:6])
+					qs++
+				}
+				ops = append(ops, fo)
+			}
+			continue
 		case "wblock": // what QueryOutput does: transaction, query, output rows, commit (H -1 = the newest handle)
 			ops = append(ops, op{K: "tran", B: true}, op{K: "query", H: -1, S: gen.Pick(t, "wq", []string{"t0", "t0", "t1", "t0 sort k"})})
 			for j := 1 + gen.Uniform(t, "rows", 3); j > 0; j-- {
@@ -806,6 +846,8 @@ func (s *side) exec1(o op) string {
 			s.th.SetDbms(s.d)
 		}
 		return "ok"
+	case "abandon":
+		return s.abandon(o, pickT)
 	case "run":
 		return "run " + valStr(d.Run(th, o.S))
 	case "exec":
@@ -816,6 +858,86 @@ func (s *side) exec1(o op) string {
 		return "exec " + valStr(d.Exec(th, ob))
 	}
 	panic("unknown op " + o.K)
+}
+
+// unpackable returns a value that cannot be sent: an object containing
+// itself, a function, a class instance, or one of these deep inside an
+// otherwise ordinary object.
+func unpackable(th *core.Thread, variant int) core.Value {
+	fn := core.Global.GetName(th, "Type") // a builtin function
+	switch variant {
+	case 0:
+		ob := core.SuObjectOf(core.IntVal(1))
+		ob.Add(ob)
+		return ob
+	case 1:
+		return fn
+	case 2:
+		inner := core.SuObjectOf(core.SuStr("deep"), fn)
+		return core.SuObjectOf(core.IntVal(1), core.SuObjectOf(core.SuStr("x"), core.SuObjectOf(inner)))
+	case 3:
+		var inst core.Value
+		if e := protect(func() { inst = compile.EvalString(th, "class { }()") }); e != "" || inst == nil {
+			return fn
+		}
+		return inst
+	}
+	ob := core.SuObjectOf(core.IntVal(1))
+	mid := core.SuObjectOf(core.SuStr("m"), ob)
+	ob.Set(core.SuStr("loop"), mid)
+	return core.SuObjectOf(core.SuStr("outer"), mid)
+}
+
+// abandon makes a request that must fail because a value cannot be packed.
+// Both ways of access must refuse it; what matters is what follows.
+func (s *side) abandon(o op, pickT func() *tranH) string {
+	d, th := s.d, s.th
+	unp := unpackable(th, o.N)
+	switch o.S {
+	case "getone":
+		// the query argument object with an unpackable selector value on a
+		// plain table with Query1 / QueryEmpty?: the direct path packs the
+		// selectors too, so both ways must raise. (QueryFirst/Last directly
+		// render the value into a where clause instead: a function is
+		// accepted there, a different question from the one asked here.)
+		args := core.SuObjectOf(core.SuStr("t0"))
+		args.Set(core.SuStr("k"), core.IntVal(1))
+		args.Set(core.SuStr("b"), unp)
+		e := protect(func() {
+			if t := pickT(); t != nil && o.B {
+				t.t.Get(th, args, core.Dir(o.Dir))
+			} else {
+				d.Get(th, args, core.Dir(o.Dir))
+			}
+		})
+		if e == "" {
+			return "abandon getone: accepted"
+		}
+		return "abandon getone: raised"
+	case "exec", "run":
+		// Exec with an unpackable argument (the client packs before it writes
+		// anything) / a result that cannot be packed (the server has begun
+		// its reply): directly the value is simply returned
+		var v core.Value
+		e := protect(func() {
+			if o.S == "run" {
+				v = d.Run(th, "Type")
+			} else {
+				v = d.Exec(th, core.SuObjectOf(core.SuStr("Object"), core.IntVal(7), unp))
+			}
+		})
+		if s.newSes == nil { // direct
+			if e != "" || !strings.HasPrefix(valStr(v), "unpackable") {
+				return "abandon " + o.S + ": direct call did not return an unpackable value: " + e + valStr(v)
+			}
+			return "abandon " + o.S + ": cannot be sent"
+		}
+		if e == "" {
+			return "abandon " + o.S + ": accepted by the client: " + valStr(v)
+		}
+		return "abandon " + o.S + ": cannot be sent"
+	}
+	panic("abandon " + o.S)
 }
 
 // dump is the logical content of a database, read directly.
@@ -1060,10 +1182,24 @@ func runDifferential(t fataler, rec *ev.Rec, ops []op, f frag, limitProbe int) {
 		default:
 			t.Fatalf("request with a %d byte string: direct %s, client %s", limitProbe, want, got)
 		}
+		if got != errLost {
+			// a refused request must not leave anything behind for the next one
+			if w, g := loc.exec(op{K: "run", S: "123"}), rem.exec(op{K: "run", S: "123"}); w != g {
+				t.Fatalf("request after one with a %d byte string (%s): direct %s, client %s", limitProbe, got, w, g)
+			}
+		}
 	}
 
 	updCommit, multipart, kinds := stats40(ops, resL)
 	rec.Case(updCommit && multipart > 0, fmt.Sprint(ops))
+	nab := 0
+	for i, o := range ops {
+		if o.K == "abandon" && i+1 < len(ops) && resL[i] != "skip" && resL[i+1] != "skip" {
+			nab++
+			rec.Label("diff_abandoned_" + o.S + "_then_request_on_same_session")
+		}
+	}
+	rec.LabelIf(nab > 0, "diff_case_abandoned_request_followed_on_same_session")
 	rec.LabelIf(updCommit, "diff_update_committed")
 	rec.LabelN("diff_transactions_aborted_by_conflict", ndoomed)
 	rec.LabelIf(multipart > 0, "diff_multipart_message")
